@@ -3,11 +3,13 @@
    archive-tar.c write_tar_entry, archive-zip.c write_zip_entry), as a rule over small trees.
 
    A tree is a set of leaf paths; a path is a sequence of components.  The kind of a leaf is
-   fixed by its name: l = symbolic link, m = gitlink, ax = executable file, everything else a
+   fixed by its name: l = symbolic link, m = gitlink, ax/x = executable file, everything else a
    regular file (d/f is the empty blob, "nlong" stands for a 120-byte name).  Directories are
-   the proper prefixes of the leaves.  Components are ranked in byte order (no directory name
-   is a string prefix of a sibling, so tree order is rank order - the subtle cases are C04's;
-   the files "a" and "ax" share a prefix so that pathspec "a" must not select "ax").
+   the proper prefixes of the leaves.  Components are ranked in byte order; the siblings
+   a (file) < ax/ (directory) < axd/ (directory) are string prefixes of one another on purpose:
+   pathspec "a" must not select ax/x, and pathspec "axd/e" must select neither a nor ax/
+   (a path is above a pathspec only at a component boundary).  For these names rank order is
+   still git's tree order ("ax/" < "axd/" because '/' < 'd'); the subtle orders are C04's.
 
    Request = (tree, prefix, pathspecs).  Entries(req, fmt) is the ordered list git writes:
      - the prefix itself as one directory entry when it ends in "/";
@@ -21,13 +23,13 @@
 EXTENDS Integers, Sequences, FiniteSets, TLC, Json, IOUtils, SequencesExt
 
 CONSTANTS Emit,
-          Full       \* TRUE: every subset of Leaves is a tree; FALSE: the subsets with at most 3 or at least 7 leaves
+          Full       \* TRUE: every subset of Leaves is a tree; FALSE: the subsets with at most 2 or at least 8 leaves
 
-Leaves == {<<"a">>, <<"d", "e">>, <<"d", "f">>, <<"d", "s", "e">>, <<"l">>, <<"m">>, <<"nlong">>, <<"ax">>}
-CompOrder == <<"a", "ax", "d", "e", "f", "l", "m", "nlong", "s">>
+Leaves == {<<"a">>, <<"ax", "x">>, <<"axd", "e">>, <<"d", "e">>, <<"d", "f">>, <<"d", "s", "e">>, <<"l">>, <<"m">>, <<"nlong">>}
+CompOrder == <<"a", "ax", "axd", "d", "e", "f", "l", "m", "nlong", "s", "x">>
 Rank == [c \in {CompOrder[i] : i \in 1..Len(CompOrder)} |-> CHOOSE i \in 1..Len(CompOrder) : CompOrder[i] = c]
 
-Kind(p) == CASE p = <<"l">> -> "link" [] p = <<"m">> -> "gitlink" [] p = <<"ax">> -> "exec" [] OTHER -> "file"
+Kind(p) == CASE p = <<"l">> -> "link" [] p = <<"m">> -> "gitlink" [] p = <<"ax", "x">> -> "exec" [] OTHER -> "file"
 
 ArPrefixes == {"", "p/", "p/q/", "p-"}
 EndsInSlash(pre) == pre \in {"p/", "p/q/"}
@@ -36,7 +38,9 @@ EndsInSlash(pre) == pre \in {"p/", "p/q/"}
 Lit(p)  == [k |-> "lit", p |-> p, s |-> ""]
 GlobE   == [k |-> "glob", p |-> <<>>, s |-> "*e"]               \* "*e": every path whose last byte is 'e'
 Filters == {{}, {Lit(<<"a">>)}, {Lit(<<"d">>)}, {Lit(<<"d", "e">>)}, {Lit(<<"d", "s">>)}, {GlobE},
-            {Lit(<<"a">>), Lit(<<"zz">>)}, {Lit(<<"m">>)}, {Lit(<<"d", "e">>), Lit(<<"ax">>)}}
+            {Lit(<<"a">>), Lit(<<"zz">>)}, {Lit(<<"m">>)}, {Lit(<<"d", "e">>), Lit(<<"ax">>)},
+            {Lit(<<"axd", "e">>)}}          \* two components; the siblings a (file) and ax/ (directory) are
+                                            \* proper string prefixes of its first component and must not be selected
 
 IsPrefixSeq(a, b) == Len(a) <= Len(b) /\ \A i \in 1..Len(a) : a[i] = b[i]
 Matches(f, p) == IF f.k = "lit" THEN IsPrefixSeq(f.p, p)          \* names the leaf or a directory above it
@@ -87,7 +91,7 @@ Entries(tree, pre, F, E(_, _, _), premode) ==
       body == [i \in 1..Len(it) |-> E(pre, it[i], it[i] \notin S)]
   IN IF EndsInSlash(pre) THEN <<[name |-> pre, type |-> "dir", mode |-> premode, data |-> ""]>> \o body ELSE body
 
-Trees    == IF Full THEN SUBSET Leaves ELSE {t \in SUBSET Leaves : Cardinality(t) <= 3 \/ Cardinality(t) >= 7}
+Trees    == IF Full THEN SUBSET Leaves ELSE {t \in SUBSET Leaves : Cardinality(t) <= 2 \/ Cardinality(t) >= 8}
 Requests == [tree : Trees, pre : ArPrefixes, f : Filters]
 SpecOf(F) == SetToSortSeq({IF f.k = "lit" THEN Join(f.p) ELSE f.s : f \in F}, LAMBDA x, y : TRUE)
 \* the archived object is a commit: its id is recorded as the archive comment (pax global header /
